@@ -1308,7 +1308,11 @@ func familyBigRound(s *hlib.Suite, r *hlib.Rng, n int) {
 				data[nm], types[nm] = ens, "enum"
 			}
 		}
-		qf := qframe.New(data, newqf.ColumnOrder(names...), newqf.Enums(map[string][]string{"E": evals}))
+		enumDecl := map[string][]string{}
+		if _, has := data["E"]; has {
+			enumDecl["E"] = evals
+		}
+		qf := qframe.New(data, newqf.ColumnOrder(names...), newqf.Enums(enumDecl))
 		hint := []int{0, 0, 100, nrows, nrows + 10}[r.Intn(5)]
 		desc := map[string]interface{}{"family": "big-roundtrip", "rows": nrows, "columns": names, "row_count_hint": hint, "props": []string{"C13", "C12"}}
 		id := s.NextID()
@@ -1321,7 +1325,7 @@ func familyBigRound(s *hlib.Suite, r *hlib.Rng, n int) {
 			s.Fail(id, fmt.Sprintf("ToCSV failed: %v", err), desc, "")
 			continue
 		}
-		rfns := []csv.ConfigFunc{csv.Types(types), csv.EnumValues(map[string][]string{"E": evals})}
+		rfns := []csv.ConfigFunc{csv.Types(types), csv.EnumValues(enumDecl)}
 		if hint > 0 {
 			rfns = append(rfns, csv.RowCountHint(hint))
 		}
